@@ -17,7 +17,7 @@ func init() {
 	Register("C19", &Info{
 		Run:   runC19,
 		Quick: 3000, Thor: 300000,
-		Rule: "a world = a history of 2-6 connections over one ClientSessionCache: one fingerprint (session_ticket / pre_shared_key parrots, HelloGolang, any parrot by stratum; optionally a different fingerprint per connection, Roller style), one server (repository or std) at TLS 1.2 or 1.3 with stable ticket keys, optionally forcing HelloRetryRequest, two server names; faults between/inside connections: connection aborted at a drawn byte offset of the server's flight (only the cache and the server's ticket keys survive), client+server clock jump (hours to weeks, past the 7-day ticket lifetime), server ticket-key rotation; oracle: (R1) every connection without an injected abort completes and echoes - a failed resumption attempt degrades to a full handshake; (R2) after a success to the same name with the same fingerprint, no rotation, clock advance < 6 days and the needed extension in the spec, the next connection resumes on both sides; (R4) a name with no earlier success is never offered a ticket or PSK; pre_shared_key last and hello well-formed (strict grammar); non-trivial = a later connection offered a ticket/PSK; distinct = (fingerprints, server, fault plan, names)",
+		Rule: "a world = a history of 2-6 connections over one ClientSessionCache: one fingerprint (session_ticket / pre_shared_key parrots, HelloGolang, any parrot by stratum; optionally a different fingerprint per connection, Roller style), one server (repository or std) at TLS 1.2 or 1.3 with stable ticket keys, optionally forcing HelloRetryRequest, two server names; faults between/inside connections: connection aborted at a drawn byte offset of the server's flight (only the cache and the server's ticket keys survive), client+server clock jump (hours to weeks, past the 7-day ticket lifetime), server ticket-key rotation, a flipped stored byte in the cached session's secret (that connection may fail, the next one may not); connections optionally call BuildHandshakeState explicitly (and SetClientRandom) before Handshake; oracle: (R1) every connection without an injected abort completes and echoes - a failed resumption attempt degrades to a full handshake; (R2) after a success to the same name with the same fingerprint, no rotation, clock advance < 6 days and the needed extension in the spec, the next connection resumes on both sides; (R4) a name with no earlier success is never offered a ticket or PSK; pre_shared_key last and hello well-formed (strict grammar); non-trivial = a later connection offered a ticket/PSK; distinct = (fingerprints, server, fault plan, names)",
 		Assumptions: []string{"ticket lifetime boundary: resumption is required only when < 6 days passed and no claim is made between 6 and 8 days",
 			"the TLS 1.3 NewSessionTicket is processed because every connection reads its echoed application data"},
 		Real: []string{"utls client and lruSessionCache from /repo", "utls or std server (real ticket sealing)"},
@@ -79,6 +79,8 @@ func runC19(c *Ctx) {
 		abortAt int64
 		jump    time.Duration
 		rotate  bool
+		corrupt bool // a stored byte of the cached session's secret flips before this connection
+		prebuild int // 1: explicit BuildHandshakeState before Handshake; 2: plus SetClientRandom in between
 	}
 	steps := make([]step, nconn)
 	for i := range steps {
@@ -95,6 +97,10 @@ func runC19(c *Ctx) {
 		if i > 0 {
 			s.jump = []time.Duration{0, 0, 0, time.Hour, 2 * 24 * time.Hour, 5 * 24 * time.Hour, 8 * 24 * time.Hour, 30 * 24 * time.Hour}[ch.Pick(8, "jump")]
 			s.rotate = ch.Bool(8, "rotate")
+			s.corrupt = ch.Bool(8, "corrupt-cached-session")
+		}
+		if ch.Bool(25, "prebuild") {
+			s.prebuild = 1 + ch.Pick(2, "prebuild-kind")
 		}
 		steps[i] = s
 	}
@@ -116,6 +122,7 @@ func runC19(c *Ctx) {
 	}
 	last := map[string]*succ{} // per server name: last successful connection since the last rotation
 	everOK := map[string]bool{}
+	pendingCorrupt := map[string]bool{}
 	var plan []string
 	for i, s := range steps {
 		clockOff += s.jump
@@ -130,7 +137,18 @@ func runC19(c *Ctx) {
 			last = map[string]*succ{}
 			c.Fault("key-rotation", 1)
 		}
-		plan = append(plan, fmt.Sprintf("%s/%s/abort=%d/jump=%v/rot=%v", s.id.Name, s.name, s.abortAt, s.jump, s.rotate))
+		corrupted := false
+		if s.corrupt {
+			if cs, ok := cache.Get(s.name); ok && cs != nil {
+				if m := append([]byte(nil), cs.MasterSecret()...); len(m) > 0 {
+					m[ch.Pick(len(m), "corrupt-pos")] ^= 0x40
+					cs.SetMasterSecret(m)
+					corrupted = true
+					c.Fault("stored-byte-flip", 1)
+				}
+			}
+		}
+		plan = append(plan, fmt.Sprintf("%s/%s/abort=%d/jump=%v/rot=%v/corrupt=%v/prebuild=%d", s.id.Name, s.name, s.abortAt, s.jump, s.rotate, corrupted, s.prebuild))
 		cfg := &tls.Config{ServerName: s.name, RootCAs: Roots(), ClientSessionCache: cache, OmitEmptyPsk: true, Time: now}
 		abortAt := s.abortAt
 		sp := &ConnSpec{Name: fmt.Sprintf("c%d", i), ID: s.id.ID, CCfg: cfg, Peer: peer, SCfg: scfg, StdCfg: stdcfg, Payload: [][]byte{[]byte("ping-pong")},
@@ -140,9 +158,25 @@ func runC19(c *Ctx) {
 					l.BA.ResetAt = abortAt
 				}
 			}}
+		if pb := s.prebuild; pb > 0 && s.id.ID != tls.HelloGolang {
+			var rnd [32]byte
+			ch.Bytes(rnd[:], "client-random")
+			sp.Prep = func(u *tls.UConn) error {
+				if err := u.BuildHandshakeState(); err != nil {
+					return err
+				}
+				if pb == 2 {
+					return u.SetClientRandom(rnd[:]) // documented as allowed after BuildHandshakeState
+				}
+				return nil
+			}
+		}
 		o := RunConn(c, w, sp)
 		obs := ObserveHellos(o.Link)
 		aborted := o.Link.BA.Fired["reset"] > 0
+		if corrupted {
+			pendingCorrupt[s.name] = true
+		}
 		if aborted {
 			c.Fault("abort-conn", 0) // counted through Fired already
 		}
@@ -172,6 +206,14 @@ func runC19(c *Ctx) {
 			}
 		}
 		ok := o.CDone && o.SDone && string(o.CRead) == "ping-pong"
+		if pendingCorrupt[s.name] && offered {
+			// the handshake that offers the corrupted session may fail; the connection after it may not
+			if !(o.CDone && o.SDone) {
+				aborted = true
+				c.Probe("failed-with-corrupted-session")
+			}
+			delete(pendingCorrupt, s.name)
+		}
 		if o.CDone {
 			everOK[s.name] = true // the client completed a handshake: a ticket may legitimately have been stored
 		}
